@@ -110,6 +110,11 @@ func genC03(g *Rng, tier string, emit func(Op)) {
 			// the challenge covers both) - the honest same-secret pair is the control
 		}
 	}
+	for _, kp := range pool[:1] {
+		for _, o := range pooledSecretsOps(g, kp) {
+			emit(o)
+		}
+	}
 	secrets := []*big.Int{randSecret(g), randSecret(g), randSecret(g)}
 	for r := -3; r < rounds; r++ {
 		for n := 2; n <= 4; n++ {
@@ -349,4 +354,87 @@ func unboundMemberOps(g *Rng, kps []*KeyPair, trees []any, ctx, nonce *big.Int, 
 		ops = append(ops, o)
 	}
 	return ops
+}
+
+// pooledSecretsOps: two holders of ordinary credentials of one issuer over different secrets
+// m1 != m2 pool everything. With A'_k = A_k * R_0^{t_k} the representation of Z has the R_0
+// exponent m_k - t_k*e_k; e_1, e_2 are distinct primes, so t_1, t_2 exist making both exponents
+// the same mu (about 2*l_e bits). Both proofs then prove knowledge of the same R_0 exponent with
+// the same response. Only the size bound on the attribute responses stands in the way.
+func pooledSecretsOps(g *Rng, kp *KeyPair) []Op {
+	pk := kp.pk
+	m1, m2 := randSecret(g), randSecret(g)
+	if m1.Cmp(m2) == 0 {
+		return nil
+	}
+	cred1 := issueCred(kp, m1, []*big.Int{g.bits(60), g.bits(60)})
+	cred2 := issueCred(kp, m2, []*big.Int{g.bits(60), g.bits(60)})
+	e1, e2 := cred1.Signature.E, cred2.Signature.E
+	if e1.Cmp(e2) == 0 {
+		return nil
+	}
+	d := new(big.Int).Sub(m1, m2)
+	t1 := new(big.Int).ModInverse(e1, e2)
+	if t1 == nil {
+		return nil
+	}
+	t1.Mul(t1, d).Mod(t1, e2).Sub(t1, e2)
+	t2 := new(big.Int).Mul(t1, e1)
+	t2.Sub(t2, d).Div(t2, e2)
+	mu := new(big.Int).Sub(m1, new(big.Int).Mul(t1, e1))
+	if mu.Cmp(new(big.Int).Sub(m2, new(big.Int).Mul(t2, e2))) != 0 || mu.Sign() <= 0 {
+		panic("pooled secrets: euclid")
+	}
+	powSigned := func(b, e *big.Int) *big.Int {
+		if e.Sign() >= 0 {
+			return new(big.Int).Exp(b, e, pk.N)
+		}
+		inv := new(big.Int).ModInverse(b, pk.N)
+		return new(big.Int).Exp(inv, new(big.Int).Neg(e), pk.N)
+	}
+	shifted := func(cred *gabi.Credential, shift *big.Int) *gabi.Credential {
+		a := new(big.Int).Mul(cred.Signature.A, powSigned(pk.R[0], shift))
+		a.Mod(a, pk.N)
+		attrs := append([]*big.Int{mu}, cred.Attributes[1:]...)
+		z := new(big.Int).Exp(a, cred.Signature.E, pk.N)
+		z.Mul(z, powSigned(pk.S, cred.Signature.V)).Mod(z, pk.N)
+		for i, attr := range attrs {
+			z.Mul(z, new(big.Int).Exp(pk.R[i], attr, pk.N)).Mod(z, pk.N)
+		}
+		if z.Cmp(pk.Z) != 0 {
+			panic("pooled secrets: shifted representation")
+		}
+		return &gabi.Credential{Pk: pk, Signature: &gabi.CLSignature{A: a, E: cred.Signature.E, V: cred.Signature.V}, Attributes: attrs}
+	}
+	var out []Op
+	for _, issig := range []bool{false, true} {
+		ctx, nonce := g.bits(256), g.bits(128)
+		b1, err1 := shifted(cred1, t1).CreateDisclosureProofBuilder([]int{1}, nil, false)
+		b2, err2 := shifted(cred2, t2).CreateDisclosureProofBuilder([]int{2}, nil, false)
+		if err1 != nil || err2 != nil {
+			panic("pooled secrets: builders")
+		}
+		builders := gabi.ProofBuilderList{b1, b2}
+		rnd := map[string]*big.Int{"secretkey": g.bits(int(pk.Params.LmCommit) - 2)}
+		c, err := builders.ChallengeWithRandomizers(ctx, nonce, rnd, issig)
+		if err != nil {
+			panic(err)
+		}
+		pl, err := builders.BuildDistributedProofList(c, nil)
+		if err != nil {
+			panic(err)
+		}
+		resp := new(big.Int).Mul(c, mu)
+		resp.Add(resp, rnd["secretkey"])
+		for _, p := range pl {
+			p.(*gabi.ProofD).AResponses[0] = new(big.Int).Set(resp)
+		}
+		trees := proofListTrees(pl)
+		for _, kss := range [][]string{nil, {"ks", "ks"}, {"a", "b"}} {
+			o := listOp([]*KeyPair{kp, kp}, trees, ctx, nonce, issig, kss, "pooled-secrets-shifted-A", "reject")
+			o["fkey"] = "C03/pooled-secrets"
+			out = append(out, o)
+		}
+	}
+	return out
 }
